@@ -1,18 +1,15 @@
 #!/bin/bash
-# usage: benigntest.sh <patch.diff>   -- apply a behaviour-preserving change to /repo, run every claimed check, undo.
-# Prints "silent" when no check reports anything new, else the reports (false alarms to be fixed in the checks).
+# usage: benigntest.sh <patch.diff>   -- analyse a behaviour-preserving change as an overlay on /repo (not modified)
+# with every claimed check. Prints "silent" when no check reports anything, else the reports (false alarms to be
+# fixed in the checks).
 set -u
 PATCH=$(readlink -f "$1")
 BIN=${KVCHECK:-/verif/bin/kvcheck}
-cd /repo || exit 2
-if [ -n "$(git status --porcelain)" ]; then echo "/repo not clean"; exit 2; fi
-trap 'git -C /repo checkout -- . >/dev/null 2>&1; git -C /repo clean -fdq >/dev/null 2>&1' EXIT
-git apply "$PATCH" || { echo "patch does not apply"; exit 2; }
 V=$(mktemp -d /tmp/benignv.XXXXXX)
 cp /verif/known_findings.json "$V"/ 2>/dev/null
 bad=0
 for P in $(python3 -c "import json;print(' '.join(c['property_id'] for c in json.load(open('/verif/MANIFEST.json'))['checks']))"); do
-  OUT=$($BIN -prop "$P" -verif "$V" -nocontrols 2>&1); RC=$?
+  OUT=$($BIN -prop "$P" -verif "$V" -nocontrols -patch "$PATCH" 2>&1); RC=$?
   if [ $RC -ne 0 ]; then bad=1; echo "$P ALARM:"; echo "$OUT" | grep -A4 '^VIOLATION' | cut -c1-700; fi
 done
 [ $bad -eq 0 ] && echo silent
